@@ -41,7 +41,7 @@ DIAG_QI = ['MIN-SR-S', 'MIN-SR-NS', 'IEpar', 'MIN', 'Qpar']
 
 def plan(tier):
     if tier == 'thorough':
-        return {'n': 120000, 'chunk': 60, 'timeout': 600, 'selftest': 40, 'budget_s': 10800, 'minimize_s': 600}
+        return {'n': 120000, 'chunk': 60, 'timeout': 600, 'selftest': 40, 'budget_s': 3000, 'minimize_s': 600}
     return {'n': 1600, 'chunk': 25, 'timeout': 600, 'selftest': 10, 'budget_s': 900, 'minimize_s': 180}
 
 
